@@ -1,11 +1,38 @@
 #!/bin/sh
 # cover.sh <outdir> <PROP>...   statement coverage of gokrazy/rsync's own packages under the quick tier of the given
 # checks: which code of the anchored files does no scenario reach?  (A measuring tool, not a check: results under
-# <outdir>; workers that are killed on purpose write no counters.)
+# <outdir>; workers that are killed on purpose write no counters.)  Binaries built with and without -race use
+# different counter modes, so the raw data is split by meta-data file and merged as text.
 out="$(readlink -f "$1")"; shift
 mkdir -p "$out/raw"
 for p in "$@"; do
   VERIF_COVER="$out/raw" bin/check "$p" quick > "$out/$p.log" 2>&1; echo "$p rc=$?"
 done
-cd /repo && GOFLAGS=-mod=mod GOPROXY=off go tool covdata textfmt -i="$out/raw" -o "$out/cover.txt" && \
-  GOFLAGS=-mod=mod GOPROXY=off go tool cover -func="$out/cover.txt" > "$out/func.txt" && tail -1 "$out/func.txt"
+cd /repo || exit 2
+for m in "$out"/raw/covmeta.*; do
+  h="${m##*.}"; mkdir -p "$out/r-$h"; mv "$m" "$out/r-$h/"; mv "$out"/raw/covcounters."$h".* "$out/r-$h/" 2>/dev/null
+  GOFLAGS=-mod=mod GOPROXY=off go tool covdata textfmt -i="$out/r-$h" -o "$out/c-$h.txt"
+done
+python3 - "$out" <<'PY'
+import glob, sys
+out = sys.argv[1]
+cov = {}
+for f in glob.glob(out + '/c-*.txt'):
+    for l in open(f):
+        if l.startswith('mode:') or 'verifharness' in l:
+            continue
+        k, n, c = l.rsplit(' ', 2)
+        cov[(k, n)] = max(cov.get((k, n), 0), 1 if int(c) > 0 else 0)
+with open(out + '/merged.txt', 'w') as o:
+    o.write('mode: set\n')
+    for (k, n), c in sorted(cov.items()):
+        o.write('%s %s %d\n' % (k, n, c))
+files = {}
+for (k, n), c in cov.items():
+    t = files.setdefault(k.split(':')[0].replace('github.com/gokrazy/rsync/', ''), [0, 0])
+    t[0] += int(n); t[1] += int(n) * c
+for fn, (tot, cv) in sorted(files.items(), key=lambda x: x[1][0] - x[1][1], reverse=True):
+    print('%-60s %5d/%5d %3.0f%%' % (fn, cv, tot, 100 * cv / max(tot, 1)))
+T = sum(t[0] for t in files.values()); C = sum(t[1] for t in files.values())
+print('total %d/%d statements %.1f%%' % (C, T, 100 * C / max(T, 1)))
+PY
